@@ -36,6 +36,9 @@
 #include <cfloat>
 #include <climits>
 #include <omp.h>
+#include <signal.h>
+#include <sys/wait.h>
+#include <unistd.h>
 #define private public
 // the real class is compiled under the name ExactGeometricTests_real; the Voronoi construction
 // (NewVoronoiCellConstructor.cpp / NewVoronoiGrid.cpp of the tree under test, included below into
@@ -479,7 +482,40 @@ int main() {
       std::vector< CV > q(np);
       for (size_t i = 0; i < np; ++i)
         q[i] = CV(dbl(w[1 + 3 * i]), dbl(w[2 + 3 * i]), dbl(w[3 + 3 * i]));
-      grid_op(q[0], q[1], std::vector< CV >(q.begin() + 2, q.end()), bad);
+      // in a child process with a time limit: a construction that is fed wrong predicate answers
+      // may not terminate
+      static int ntimeouts = 0;
+      if (ntimeouts >= 3) {
+        std::cout << "grid skipped\n";
+        continue;
+      }
+      std::cout.flush();
+      const pid_t child = fork();
+      if (child == 0) {
+        grid_op(q[0], q[1], std::vector< CV >(q.begin() + 2, q.end()), bad);
+        if (!bad.str().empty())
+          std::cout << "ORACLE line=" << lineno << bad.str() << "\n";
+        std::cout.flush();
+        _exit(0);
+      }
+      int status = 0;
+      bool done = false;
+      for (int tick = 0; tick < 1000 && !done; ++tick) {       // 10 s
+        if (waitpid(child, &status, WNOHANG) == child)
+          done = true;
+        else
+          usleep(10000);
+      }
+      if (!done) {
+        kill(child, SIGKILL);
+        waitpid(child, &status, 0);
+        ++ntimeouts;
+        std::cout << "grid timeout\n";
+        bad << " grid-construction-does-not-terminate:killed-after-10s";
+      } else if (!(WIFEXITED(status) && WEXITSTATUS(status) == 0)) {
+        std::cout << "grid crashed\n";
+        bad << " grid-construction-crashed:status=" << status;
+      }
     } else if (w[0] == "m" && w.size() == 2) {
       const double d = dbl(w[1]);
       const uint64_t mt = ExactGeometricTests_real::get_mantissa(d);
